@@ -99,7 +99,9 @@ Inductive ret :=
 | RCall (st : St) (lim : option rawlimit)
 | RUn (f : val -> res val) (r : ret)
 | RBin (f : val -> val -> res val) (r1 r2 : ret)
-| RRaise (e : exn).
+| RRaise (e : exn)
+(* try: r1  except <classes c>: r2 *)
+| RTry (c : exn -> bool) (r1 r2 : ret).
 
 (* a mechanic: per decorated function (state) its sources, sentinel and callback *)
 Variable srcs : St -> list source.
@@ -149,6 +151,10 @@ Fixpoint call (fuel : nat) (s : evstate) (st : St) (lim : option rawlimit) {stru
                             | (s1, Err e) => (s1, Err e)
                             end
           | RRaise e => (s, Err e)
+          | RTry c r1 r2 => match ev r1 s with
+                            | (s1, Ok x) => (s1, Ok x)
+                            | (s1, Err e) => if c e then ev r2 s1 else (s1, Err e)
+                            end
           end in
         let loop := fix go (bs : list (list result * Z)) (s : evstate) (acc : list (val * Z))
                       : evstate * res (list (val * Z)) :=
@@ -189,6 +195,7 @@ Arguments RCall {T St} _ _.
 Arguments RUn {T St} _ _.
 Arguments RBin {T St} _ _ _.
 Arguments RRaise {T St} _.
+Arguments RTry {T St} _ _ _.
 Arguments SH {T} _.
 Arguments SP {T} _.
 Arguments SPW {T} _ _.
